@@ -243,7 +243,7 @@ func c09Random(c *vlib.Ctx) {
 			continue
 		}
 		r := c.Rand(uint64(i))
-		p := asm.Params{Conns: r.Range(1, 2), MaxStream: c.Pick(16<<10, 64<<10), Flushes: r.Chance(1, 2), NoSYN: 10, CloseProb: 60, Both: true}
+		p := asm.Params{Conns: r.Range(1, 2), MaxStream: c.Pick(16<<10, 64<<10), Flushes: r.Chance(1, 2), NoSYN: 10, CloseProb: 60, Stall: 6, MixSizes: r.Chance(1, 6), Both: true}
 		if r.Chance(1, 2) {
 			p.MaxStream = 600
 			p.SmallSegs = r.Bool()
